@@ -333,8 +333,3 @@ m("c13_extend_not_exception_safe", "C13", AR, """        else:
                 self.append(x)""", """        else:
             super().extend(other)
             self.best = _recompute_best(self)""")
-m("c19_solve_offset_restored_late", "C19", SB, """            return offset, ({} if not all_solutions else [{}])
-        D[()] = offset""", """            return offset, ({} if not all_solutions else [{}])
-        D[()] = offset
-        D.pop(())
-        valid_, valid = valid, (lambda x, _D=D, _o=offset: (_D.__setitem__((), _o), valid_(x), _D.pop(()))[1])""", expect="maybe")
